@@ -56,5 +56,14 @@ for _pid, _txt in {
 }.items():
     TEXTS[_pid] = {"engine": "lean-model+extract+harness", "design_ref": "4/" + _pid, "technique": _TABLE_TECH, "text": _txt, "note": _TABLE_NOTE}
 
+_SCHED_TECH = "Lean 4 interleaving model (Model.Conc) whose per-thread step order is regenerated from the source by tools/extract; real goroutines driven through verif hooks under the same schedule and compared step by step; oracles for serial committed state, mutual exclusion, closed-implies-visible and enabledness; Lean theorems under construction"
+_SCHED_NOTE = "Translation validation until the theorems over Model.Conc are finished. Mutex / atomic pointer semantics and the atomicity of code between hook points are trusted."
+for _pid, _txt in {
+    "C02": "At every hook point inside WriteTxn / Commit / Abort / registerTable a fresh snapshot must equal the serial committed state (all writes of a commit or none, nothing uncommitted, nothing of an abort); the snapshot returned by Commit must be the state at its own commit point. Sequential abort-leaves-no-trace clauses come from the table suite.",
+    "C05": "Lock ownership observed at the per-mutex hooks must be exclusive; a writer must see the latest committed counter/revision of every table it holds; after every step the committed state must be the serial sum of all commits, also with tables registered while transactions are open. One genuine defect (table registered during an open transaction dropped, later Commit panics holding the root lock) was found and repaired.",
+    "C10": "The harness releases only threads whose next acquisition is possible according to the lock state it observed; every released thread must reach its next hook point (so transactions on other tables and readers never wait), and whenever unfinished threads exist one must be enabled (no deadlock), with table lists in any order and with duplicates.",
+}.items():
+    TEXTS[_pid] = {"engine": "lean-model+extract+harness(hook scheduler)", "design_ref": "4/" + _pid, "technique": _SCHED_TECH, "text": _txt, "note": _SCHED_NOTE}
+
 # every property not in TEXTS/PROPS must be listed here with a reason
 NOT_APPLICABLE = []
